@@ -455,7 +455,7 @@ def scenarios(prop, count, seed):
         sc["snap"] = prop == "C14"
         hrn = sc["harness"]
         n = sc["cfg"]["n"]
-        hrn["prep"] = rng.choice([0, 0, 0, 1, 2])
+        hrn["prep"] = rng.choice([0, 0, 0, 1, 2, 3])
         if rng.random() < stall_p:
             hrn["stall"] = [rng.choice([0, 0, 1, 2, 3]) if sc["cfg"]["kind"][j] == "job" else 0
                             for j in range(n)]
